@@ -352,8 +352,16 @@ class ModelsMixin:
     def match_class(self, v: Val, tags: List[str]):
         """per type member of v: 'y' / 'n' / 'm' whether it is an instance of one of the class tags"""
         out = {}
+        numtags = [t for t in tags if t in NUMERIC_TAGS]
+        union = set().union(*[NUMERIC_TAGS[t] for t in numtags]) if numtags else set()
         for t in v.ty:
             best = "n"
+            if self.A.exact and len(numtags) > 1 and (v.kind - {"N"}) and "U" not in v.kind and (t in ("number", "int", "float") or (t in ("?", "ndarray", "tuple", "list") and (t == "?" or v.ty & {"number", "int", "float"}))):
+                # isinstance(x, (int, Fraction)): the classes together cover the union of their kinds
+                k = set(v.kind) - {"N"}
+                if k <= union:
+                    out[t] = "y"
+                    continue
             for tag in tags:
                 r = self._match1(v, t, tag)
                 if r == "y":
@@ -369,6 +377,8 @@ class ModelsMixin:
     def _match1(self, v: Val, t: str, tag: str) -> str:
         if t == "?" and tag in NUMERIC_TAGS and (v.kind - {"N"}) and "U" not in v.kind and ("N" not in v.kind or self.A.exact):
             t = "number"  # an untyped value known to be a number of these kinds (exact context: user data are exact numbers)
+        if self.A.exact and tag in NUMERIC_TAGS and t in ("ndarray", "tuple", "list") and (v.ty & {"number", "int", "float"}) and (v.kind - {"N"}) and "U" not in v.kind:
+            t = "number"  # cell-or-row ambiguity of array elements: in the exact context a knot / node / weight is a number
         if t == "?" or tag in ("cls:?", "cls:object"):
             return "m" if tag != "cls:object" else "y"
         c = tag[4:] if tag.startswith("cls:") else tag
